@@ -30,6 +30,7 @@ from giscanner.girwriter import GIRWriter  # noqa: E402
 from giscanner.annotationparser import GtkDocCommentBlockParser  # noqa: E402
 import giscanner.transformer as _T  # noqa: E402
 
+STUBGIR = os.path.join(os.path.dirname(os.path.abspath(__file__)), 'stubgir')
 _T.GIR_DIR = '/nonexistent'
 _T.DATADIR = '/nonexistent'
 
@@ -131,8 +132,10 @@ def run(symbols, comments=(), nsname='Foo', version='1.0', identifier_prefixes=N
     logger = message.MessageLogger.get(namespace=ns, output=out)
     logger.enable_warnings(warnings)
     tr = Transformer(ns, accept_unprefixed=accept_unprefixed)
+    if includes:
+        tr.set_include_paths([STUBGIR])
     for inc in includes:
-        tr.register_include(inc)
+        tr.register_include(ast.Include(inc, '2.0') if isinstance(inc, str) else inc)
     blocks = GtkDocCommentBlockParser().parse_comment_blocks(list(comments))
     tr.parse([sym(s) if not isinstance(s, SourceSymbol) else s for s in symbols])
     if dump is not None:
